@@ -75,12 +75,15 @@ impl RemoteInitiated {
 
         // since streams are 0-indexed, using `max_allowed_stream_limit` to calculate
         // the stream_id gives 1 stream_id greater than the allowed limit
-        let not_allowed_stream_id = StreamId::nth(
+        let Some(not_allowed_stream_id) = StreamId::nth(
             stream_id.initiator(),
             stream_id.stream_type(),
             max_allowed_stream_limit,
-        )
-        .expect("max_streams is limited to MAX_STREAMS_MAX_VALUE");
+        ) else {
+            // With a limit of MAX_STREAMS_MAX_VALUE (2^60) every representable
+            // stream ID is within the limit
+            return Ok(());
+        };
 
         if stream_id >= not_allowed_stream_id {
             //= https://www.rfc-editor.org/rfc/rfc9000#section-4.6
